@@ -578,6 +578,8 @@ func (c *Conn) Parse(data []byte) (retErr error) {
 		if err != nil {
 			if errors.Is(err, ErrMessageTooLarge) || errors.Is(err, ErrControlMessageTooBig) {
 				_ = c.WriteClose(1009, err.Error())
+				// the caller closes the connection right after this error.
+				c.waitSendQueue()
 			}
 			return err
 		}
@@ -1092,6 +1094,28 @@ func newConn(u *Upgrader, c net.Conn, subprotocol string, remoteCompressionEnabl
 		}
 	}
 	return wsc
+}
+
+// waitSendQueue gives the sender of the asynchronous send queue up to
+// BlockingModAsyncCloseDelay to write out what is queued (a close frame that
+// answers an error, typically) before the connection is closed and cleaned.
+//
+//go:norace
+func (c *Conn) waitSendQueue() {
+	if !c.IsAsyncWrite() {
+		return
+	}
+	deadline := time.Now().Add(c.BlockingModAsyncCloseDelay)
+	for time.Now().Before(deadline) {
+		c.mux.Lock()
+		n := len(c.sendQueue)
+		closed := c.closed
+		c.mux.Unlock()
+		if n == 0 || closed {
+			return
+		}
+		time.Sleep(time.Millisecond)
+	}
 }
 
 // HandleRead .
